@@ -11,6 +11,7 @@ import functools
 import json
 
 import numpy as np
+import torch
 
 from mc import runner
 from mc.core import result, rnd
@@ -266,16 +267,38 @@ def run_case(case):
             bad, ref = [], ref2
     if bad and spec.get("slm") is not None:
         # Recorded C07 finding seen through emu-sv: with a far-detuned (SLM-masked) atom the Krylov error estimate declares convergence too early.
-        # It is that finding - and nothing else - iff the very same run is exact once the tolerance is tightened.
+        # It is that finding - and nothing else - iff the very same run is exact once the tolerance is tightened, or (with many steps the
+        # premature convergence is still visible at 1e-12: 500 x tolerance per step) once krylov_exp is swapped for an exact exponential
+        # while everything else of the run stays the real code.
         tight = min(1e-12, tol * 1e-3)
         cfg12 = dict(cfg, krylov_tolerance=tight)
+        how = None
         try:
             res12, _ = runner.run_sv(spec, cfg12)
-            ok12 = not runner.compare_results(res12, ref, cfg["eval"], nsteps * 10 * tight + 1e-10, 4 * (nsteps * 10 * tight + 1e-10) + 1e-9, state_getter=getter)
+            if not runner.compare_results(res12, ref, cfg["eval"], nsteps * 10 * tight + 1e-10, 4 * (nsteps * 10 * tight + 1e-10) + 1e-9, state_getter=getter):
+                how = f"exact at krylov_tolerance={tight:g}"
+            elif n <= 6:
+                import emu_sv.time_evolution as te
+                from scipy.linalg import expm
+
+                def exact_exp(op, v, *a, **k):
+                    dim = v.numel()
+                    cols = [op(torch.eye(dim, dtype=v.dtype)[:, j].contiguous()) for j in range(dim)]
+                    A = torch.stack(cols, dim=1).numpy()
+                    return torch.tensor(expm(A) @ v.numpy(), dtype=v.dtype)
+
+                old = te.krylov_exp
+                te.krylov_exp = exact_exp
+                try:
+                    resx, _ = runner.run_sv(spec, cfg)
+                finally:
+                    te.krylov_exp = old
+                if not runner.compare_results(resx, ref, cfg["eval"], 1e-9, 1e-8, state_getter=getter):
+                    how = "exact once krylov_exp is replaced by a dense matrix exponential, every other part of the run unchanged"
         except Exception:
-            ok12 = False
-        if ok12:
-            return result(False, sig="tight|krylov-accuracy-with-far-detuned-masked-atom", msg=f"{case['label']} cfg={cfg}: " + " ; ".join(bad[:2]) + " (exact at krylov_tolerance={tight:g})", outcome="mismatchA-krylov")
+            how = None
+        if how:
+            return result(False, sig="tight|krylov-accuracy-with-far-detuned-masked-atom", msg=f"{case['label']} cfg={cfg}: " + " ; ".join(bad[:2]) + f" ({how})", outcome="mismatchA-krylov")
     if bad:
         return result(
             False,
